@@ -19,7 +19,8 @@ RULE = (
     "(exponentially many paths), generated dense kernels (instructions reading and writing two registers) and "
     "ordinary kernels; timeouts {0, 1, 2, generous, -1}; worker completion placed clearly before the deadline "
     "(>=0.5 s), clearly after it (>=1 s), and 0.10-0.15 s before it (inside the last polling interval); plus CLI "
-    "runs on the long-LCD kernel. Oracle: wall time <= timeout + 10 s; timed_out / footer warning <=> at least one "
+    "runs on the long-LCD kernel. Oracle: wall time <= timeout + 10 s, and on explosive kernels the time beyond the requested timeout differs by at "
+    "most 4 s between timeout 0 and timeout 1 or 2 (measured twice before it counts); timed_out / footer warning <=> at least one "
     "chunk did not record completion; every reported dependency is a cycle of the untimed result with the same "
     "latency (where the untimed search finishes); port pressure totals and critical path equal the untimed run's; "
     "no child process of the analysing process is alive 0.5 s after return; timeout -1 or finishing in time => "
@@ -114,9 +115,41 @@ def untimed(case):
     return _UNTIMED[key]
 
 
+def check_pair(case):
+    """the overhead beyond the requested timeout must not depend on the timeout: the same explosive kernel with two
+    timeouts (one of them 0); measured twice before a difference is reported"""
+    worst = None
+    for attempt in range(2):
+        over = {}
+        for to in case["timeouts"]:
+            k = len(sched.chunks(len(case["lines"]), case["ncpu"]))
+            obs = run_scheduled(dict(case, timeout=to, delays=[0.0] * k))
+            if obs["kids"]:
+                raise Violation("workers-left:%s:timeout=%s" % (case["label"], to), "worker processes still alive 0.5 s "
+                                "after the analysis returned", obs["kids"], [])
+            if not obs["timed_out"]:
+                return {"nontrivial": False, "classes": ["pair:search-finished-in-time"]}
+            over[to] = obs["wall"] - to
+        diff = max(over.values()) - min(over.values())
+        worst = diff if worst is None else min(worst, diff)
+        if diff <= case["slack"]:
+            break
+    if worst > case["slack"]:
+        raise Violation("overhead-depends-on-timeout:" + case["label"], "time beyond the requested timeout differs by "
+                        "%.1f s between timeouts %s on the same kernel (overheads %s)" % (
+                            worst, case["timeouts"], {k: round(v, 1) for k, v in over.items()}),
+                        {str(k): round(v, 2) for k, v in over.items()}, "difference <= %s s" % case["slack"])
+    return {"nontrivial": True, "classes": ["pair", "pair:" + case["label"]] + ["timeout:%s" % t for t in case["timeouts"]],
+            "key": ["pair", case["label"], case["timeouts"], case["ncpu"]],
+            "sample": {"kernel": case["label"], "timeouts": case["timeouts"],
+                       "overhead_s": {str(k): round(v, 2) for k, v in over.items()}}}
+
+
 def check_case(case):
     if case.get("kind") == "cli":
         return check_cli(case)
+    if case.get("kind") == "pair":
+        return check_pair(case)
     obs = run_scheduled(case)
     to = case["timeout"]
     tag = "%s:timeout=%s" % (case["label"], to)
@@ -243,6 +276,10 @@ def scenario_list(tier, seed):
             add("dense-explosive", "zen2", dense_kernel(nn), 2, 16, "none", explosive=True)
         add("long-lcd", "zen2", long_lcd, 2, 16, "none", explosive=True)
         add("long-lcd", "zen2", long_lcd, 0, 16, "none", explosive=True)
+    out.append({"kind": "pair", "label": "long-lcd", "arch": "zen2", "lines": long_lcd, "ncpu": 16, "timeouts": [0, 1],
+                "slack": 4.0})
+    out.append({"kind": "pair", "label": "dense-explosive", "arch": "zen2", "lines": dense_kernel(40), "ncpu": 8,
+                "timeouts": [0, 2], "slack": 4.0})
     out.append({"kind": "cli", "arch": "zen2", "timeout": 1})
     if tier == "thorough":
         out.append({"kind": "cli", "arch": "zen2", "timeout": 2})
